@@ -204,12 +204,28 @@ func genC04(c *Ctx) {
 	for ai := range vAssets {
 		a := &vAssets[ai]
 		reps := nonAudioReps(a)
-		for ri, rep := range reps {
-			if !c.Thorough() && ri > 2 {
-				break
+		// re-segmented audio follows the reference (video) grid: its availability is that of the reference segment
+		ref := refRepOf(a)
+		if ref != nil && ref.ContentType == "video" {
+			for i := range a.Reps {
+				ar := &a.Reps[i]
+				if ar.ContentType == "audio" && !ar.PreEncrypted && ar.ConstSampleDur > 0 {
+					reps = append(reps, ar)
+					break
+				}
 			}
-			n := len(rep.Segments)
-			T := rep.MediaTimescale
+		}
+		for ri, rep := range reps {
+			isAudio := rep.ContentType == "audio" && !rep.PreEncrypted
+			if !c.Thorough() && ri > 2 && !isAudio {
+				continue
+			}
+			grid := rep
+			if isAudio {
+				grid = ref
+			}
+			n := len(grid.Segments)
+			T := grid.MediaTimescale
 			for ci := 0; ci < c.N(6, 40); ci++ {
 				startS := r.Pick(0, 0, 61, 1000)
 				snr := r.Pick(0, 0, 1, 5)
@@ -224,8 +240,11 @@ func genC04(c *Ctx) {
 				tsbd := tsbds[r.Intn(len(tsbds))]
 				cf := mkCfg(startS, tsbd, snr, ato, mode)
 				k := r.Pick(0, 1, n-1, n, 2*n+1, 3*n+r.Intn(n), 1000+r.Intn(50))
-				e := expectSeg(a, rep, k, snr)
+				e := expectSeg(a, grid, k, snr)
 				id := segIDFor(rep, e, mode)
+				if isAudio && mode == "tlt" {
+					id = strconv.FormatUint(ceilFrame(e.start, uint64(T), uint64(rep.ConstSampleDur), uint64(rep.MediaTimescale)), 10)
+				}
 				atoEff := ato
 				if ato < 0 {
 					atoEff = 0
